@@ -72,6 +72,8 @@ def all_mutants(with_anc):
     if with_anc:
         for a in ANC_TRIO:
             ms.append({"kind": "delete", "attr": a})
+        # the recipe itself is missing while the three lists are there
+        ms.append({"kind": "delete", "attr": "compute_ancillaries"})
     for a in ("parameter_keys", "parameter_names", "parameter_units"):
         ms.append({"kind": "shorten", "attr": a})
         ms.append({"kind": "lengthen", "attr": a})
@@ -89,6 +91,10 @@ def expected_error(mutant):
     if mutant is None:
         return None
     k = mutant["kind"]
+    if k == "delete" and mutant.get("attr") == "compute_ancillaries":
+        # the statement does not list it: a model error, or a model that is
+        # accepted and can be used (without own ancillaries)
+        return "either"
     if k == "delete":
         return ModelIncompleteError
     if k in ("shorten", "lengthen", "dup_name", "permute_defaults",
@@ -160,6 +166,8 @@ def render(spec):
     if mut and mut["kind"] == "delete":
         deleted = mut["attr"]
         attrs.pop(deleted, None)
+        if deleted == "compute_ancillaries":
+            anc = ""
         if deleted == "model_func":
             tail += "del model_func\n"
             attrs["model_doc"] = repr("doc")
@@ -175,6 +183,22 @@ def render(spec):
         defaults="\n".join(dlines), args=args, ancillaries=anc,
         attrs="\n".join(f"{k} = {v}" for k, v in attrs.items()), tail=tail)
     return src
+
+
+FAILING_STATEMENTS = [
+    "x = 1 / 0", "x = an_undefined_name", "import sys\nsys.no_such_attr",
+    "raise ValueError('not today')", "assert False, 'broken plugin'",
+    "x = {}['missing']", "x = [][3]", "int('x')",
+    "raise RuntimeError('boom')"]
+
+
+def eff_anc(spec):
+    """The ancillaries a model of this spec can compute."""
+    mut = spec.get("mutant") or {}
+    if mut.get("kind") == "delete" and \
+            mut.get("attr") == "compute_ancillaries":
+        return None
+    return spec.get("anc")
 
 
 def spec_id(spec):
@@ -213,9 +237,9 @@ class RegistryEngine:
         "ancillary trio) -> ModelIncompleteError; mismatched list lengths, "
         "non-unique names, defaults out of order or fewer defaults than keys "
         "-> ModelImplementationError; both are 'a model error'",
-        "an un-importable file must raise ModelImportError; for a file whose "
-        "own code raises, the original exception or ModelImportError are "
-        "both accepted, never an unrelated exception",
+        "an un-importable file (missing, syntax error, failing import, own "
+        "code raising NameError/ZeroDivisionError/ValueError/...) must "
+        "raise ModelImportError",
         "identity of a registered model is read from a marker constant in "
         "its source and from its output on seeded arrays",
     ]
@@ -248,7 +272,8 @@ class RegistryEngine:
             if rng.random() < 0.3:
                 spec["argswap"] = True
             if rng.random() < 0.5 or (
-                    mutant and mutant.get("attr") in ANC_TRIO):
+                    mutant and mutant.get("attr") in ANC_TRIO + [
+                        "compute_ancillaries"]):
                 spec["anc"] = {"E": rng.choice([1234.5, float("nan"), 50.0]),
                                "anc_x": rng.choice([1e-6, float("nan")])}
                 if rng.random() < 0.5:
@@ -309,6 +334,7 @@ class RegistryEngine:
                             "dir": rng.choice(["d1", "d2", "d1"]),
                             "register": rng.random() < 0.6,
                             "dwb": rng.random() < 0.5,
+                            "stmt": rng.randrange(len(FAILING_STATEMENTS)),
                             "dir_on_path": rng.random() < 0.25})
             else:
                 ops.append({"op": "seed_params", "key": rng.choice(keys)})
@@ -532,17 +558,9 @@ class RegistryEngine:
                     # un-importable file
                     n_rej += 1
                     probes[f"un-importable file: {op['file']}"] += 1
+                    # "a file that cannot be imported raises the documented
+                    # import error", whatever made the import fail
                     ok_classes = [ModelImportError]
-                    if op["file"] == "syntax":
-                        ok_classes.append(SyntaxError)
-                    elif op["file"] == "raises":
-                        ok_classes.append(ZeroDivisionError)
-                    elif op["file"] == "importerror":
-                        ok_classes.append(ImportError)
-                    elif op["file"] == "raises_pathedit":
-                        ok_classes.append(ZeroDivisionError)
-                    elif op["file"] == "importerror_pathedit":
-                        ok_classes.append(ImportError)
                     if exc is None:
                         violation = viol(
                             "M2", "unimportable-accepted", feats,
@@ -586,6 +604,17 @@ class RegistryEngine:
                     if v:
                         violation = v
                         break
+            if exc is None and mut and \
+                    mut.get("attr") == "compute_ancillaries" and \
+                    ref.get(spec["key"]) is spec and reg.get(spec["key"]):
+                # accepted although the recipe is missing: it has to be
+                # usable (initial parameters are the defaults)
+                v = self.check_seeding(spec["key"], spec,
+                                       run["config"]["curve"], feats, i)
+                probes["accepted model without recipe used"] += 1
+                if v:
+                    violation = v
+                    break
             # ---------------- M1 registry == reference --------------------
             want = set(baseline) | set(ref)
             have = set(reg)
@@ -641,7 +670,7 @@ class RegistryEngine:
         # behaves like shipped code: fit with a scale-1 model
         if violation is None:
             for k, sp in ref.items():
-                if sp.get("scale", 1.0) == 1.0 and not sp.get("anc"):
+                if sp.get("scale", 1.0) == 1.0 and not eff_anc(sp):
                     violation = self.check_fit_twin(k, run["config"]["curve"])
                     probes["fit compared with shipped twin"] += 1
                     oracle_checks += 1
@@ -701,7 +730,8 @@ class RegistryEngine:
             path.write_text("def broken(:\n    pass\n")
         elif kind == "raises":
             path = d / (op.get("stem", "modela") + "_exc.py")
-            path.write_text("x = 1 / 0\n")
+            path.write_text(FAILING_STATEMENTS[
+                op.get("stmt", 0) % len(FAILING_STATEMENTS)] + "\n")
         elif kind == "importerror":
             path = d / (op.get("stem", "modela") + "_imp.py")
             path.write_text("import a_module_that_does_not_exist_sim\n")
@@ -752,7 +782,7 @@ class RegistryEngine:
                     f"label/unit of fit parameter {k!r} is "
                     f"{md.get_parm_name(k)!r}/{md.get_parm_unit(k)!r}, the "
                     f"module says {nm!r}/{un!r}", i)
-        if spec.get("anc"):
+        if eff_anc(spec):
             if md.get_parm_name("anc_x") != "anc x" or \
                     md.get_parm_unit("anc_x") != "m":
                 return make_violation(
@@ -768,6 +798,10 @@ class RegistryEngine:
             ["R"] if "R" in spec["anc"] else []) + (
             ["contact_point"] if "contact_point" in spec["anc"] else []))
             if spec.get("anc") else [])
+        if eff_anc(spec) is None and spec.get("anc"):
+            # recipe missing: what is advertised is not prescribed; that
+            # the model can be used is checked where it is accepted
+            want = list(anc_keys)
         if list(anc_keys) != want:
             return make_violation(
                 self.prop, "M4", "ancillary-keys", feats,
@@ -811,7 +845,7 @@ class RegistryEngine:
                     self.prop, "M5", f"raises:{type(e).__name__}", feats,
                     f"get_initial_fit_parameters raised "
                     f"{type(e).__name__}: {e}", i)
-        anc = spec.get("anc")
+        anc = eff_anc(spec)
         want_E = 3e3
         if anc and anc["E"] == anc["E"]:
             want_E = anc["E"]
